@@ -347,18 +347,6 @@ inductive Spell : TokType → Bytes → Bytes → Prop
   | lit (txt : Bytes) : Units 0x60 (btSpell txt) → Spell .jsonLiteral txt (0x60 :: (btSpell txt ++ [0x60]))
   | quoted (body v : Bytes) : Units 0x22 body → Json.unquoteString body = some v → Spell .qident v (0x22 :: (body ++ [0x22]))
 
-theorem units_ascii {endc : UInt8} {s : Bytes} (h : Units endc s) : Ascii s := by
-  induction h with
-  | nil => intro c hc; cases hc
-  | plain c rest hc _ _ _ ih => intro x hx; rcases List.mem_cons.mp hx with rfl | h'; exact hc; exact ih x h'
-  | esc d rest hd _ ih =>
-    intro x hx
-    rcases List.mem_cons.mp hx with rfl | h'
-    · decide
-    · rcases List.mem_cons.mp h' with rfl | h''
-      · exact hd
-      · exact ih x h''
-
 theorem rawSpell_ascii : ∀ (v : Bytes), Ascii v → Ascii (rawSpell v)
   | [], _ => fun _ h => by cases h
   | c :: cs, h => by
@@ -385,27 +373,26 @@ theorem ascii_cons {c : UInt8} {a : Bytes} (hc : c < 0x80) (ha : Ascii a) : Asci
 theorem digit_facts : ∀ c : UInt8, isDigitB c = true → c < 0x80 := by
   apply forall_uint8; decide +kernel
 
-theorem spell_ascii {ty : TokType} {v text : Bytes} (h : Spell ty v text) : Ascii text ∧ text ≠ [] := by
+def HeadAscii (s : Bytes) : Prop := ∀ d ds, s = d :: ds → d < 0x80
+
+theorem spell_head {ty : TokType} {v text : Bytes} (h : Spell ty v text) : ∃ c t, text = c :: t ∧ c < 0x80 := by
   cases h with
-  | basic c ty hb => exact ⟨ascii_cons (basic_facts c ty hb).1 (fun _ h => by cases h), by simp⟩
-  | ident c v hs hv => exact ⟨ascii_cons (idstart_facts c hs) (fun x hx => trail_facts x (hv x hx)), by simp⟩
-  | number c ds hc hd => exact ⟨ascii_cons (number_facts c hc).1 (fun x hx => digit_facts x (hd x hx)), by simp⟩
-  | raw v ha _ =>
-    exact ⟨ascii_cons (by decide) (ascii_append (rawSpell_ascii v ha) (ascii_cons (by decide) (fun _ h => by cases h))), by simp⟩
-  | lit txt hu =>
-    exact ⟨ascii_cons (by decide) (ascii_append (units_ascii hu) (ascii_cons (by decide) (fun _ h => by cases h))), by simp⟩
-  | quoted body v hu _ =>
-    exact ⟨ascii_cons (by decide) (ascii_append (units_ascii hu) (ascii_cons (by decide) (fun _ h => by cases h))), by simp⟩
-  | _ => exact ⟨by intro x hx; simp at hx; rcases hx with rfl | rfl <;> decide, by simp⟩
+  | basic c ty hb => exact ⟨c, [], rfl, (basic_facts c ty hb).1⟩
+  | ident c v hs hv => exact ⟨c, v, rfl, idstart_facts c hs⟩
+  | number c ds hc hd => exact ⟨c, ds, rfl, (number_facts c hc).1⟩
+  | raw v _ _ => exact ⟨_, _, rfl, by decide⟩
+  | lit txt _ => exact ⟨_, _, rfl, by decide⟩
+  | quoted body v _ _ => exact ⟨_, _, rfl, by decide⟩
+  | _ => exact ⟨_, _, rfl, by decide⟩
 
 section Main
 variable {tb : Tables} (hT : TablesAscii tb) (total : Nat)
 include hT
 
 /-- one step reads one spelled token, whatever follows it (if it cannot fuse) -/
-theorem step_spell {ty : TokType} {v text : Bytes} (hs : Spell ty v text) (rest : Bytes) (har : Ascii rest)
+theorem step_spell {ty : TokType} {v text : Bytes} (hs : Spell ty v text) (rest : Bytes) (har : HeadAscii rest)
     (hf : Follows ty rest.head?) : ∃ pos, step tb total (text ++ rest) = .tok ⟨ty, v, pos⟩ rest := by
-  have hhead : ∀ d ds, rest = d :: ds → d < 0x80 := fun d ds e => har d (by rw [e]; simp)
+  have hhead : ∀ d ds, rest = d :: ds → d < 0x80 := har
   cases hs with
   | basic c ty hb => exact step_basic hT total c ty rest hb
   | ident c v hs hv =>
@@ -472,13 +459,21 @@ inductive Rendered : List (TokType × Bytes) → Bytes → Prop
       (∀ w ∈ ws, isWhiteB w = true) → Spell ty v text → Rendered toks rest → Follows ty rest.head? →
       Rendered ((ty, v) :: toks) (ws ++ (text ++ rest))
 
-theorem white_ascii {ws : Bytes} (h : ∀ w ∈ ws, isWhiteB w = true) : Ascii ws :=
-  fun x hx => (white_facts x (h x hx)).1
-
-theorem rendered_ascii {keys : List (TokType × Bytes)} {s : Bytes} (h : Rendered keys s) : Ascii s := by
-  induction h with
-  | nil ws hw => exact white_ascii hw
-  | cons ws ty v text rest toks hw hs _ _ ih => exact ascii_append (white_ascii hw) (ascii_append (spell_ascii hs).1 ih)
+theorem rendered_head {keys : List (TokType × Bytes)} {s : Bytes} (h : Rendered keys s) : HeadAscii s := by
+  cases h with
+  | nil ws hw =>
+    intro d ds e
+    exact (white_facts d (hw d (by rw [e]; simp))).1
+  | cons ws ty v text rest toks hw hs _ _ =>
+    intro d ds e
+    cases ws with
+    | nil =>
+      obtain ⟨c, t, rfl, hc⟩ := spell_head hs
+      simp only [List.nil_append, List.cons_append, List.cons.injEq] at e
+      rw [← e.1]; exact hc
+    | cons w ws' =>
+      simp only [List.cons_append, List.cons.injEq] at e
+      rw [← e.1]; exact (white_facts w (hw w (by simp))).1
 
 def keyOf (t : Token) : TokType × Bytes := (t.ty, t.value)
 
@@ -496,11 +491,12 @@ theorem loop_rendered {tb : Tables} (hT : TablesAscii tb) (total : Nat) {keys : 
     exact ⟨[], by simp [loop], rfl⟩
   | cons ws ty v text rest toks hw hs hr hf ih =>
     intro fuel hfuel
-    obtain ⟨htext_a, htext_ne⟩ := spell_ascii hs
+    obtain ⟨c0, t0, htext0, _⟩ := spell_head hs
+    have htext_ne : text ≠ [] := by rw [htext0]; simp
     simp only [List.length_append] at hfuel
     obtain ⟨f, rfl⟩ : ∃ f, fuel = (f + 1) + ws.length := ⟨fuel - ws.length - 1, by omega⟩
     rw [loop_white hT total ws (text ++ rest) (f + 1) hw]
-    obtain ⟨pos, hstep⟩ := step_spell hT total hs rest (rendered_ascii hr) hf
+    obtain ⟨pos, hstep⟩ := step_spell hT total hs rest (rendered_head hr) hf
     obtain ⟨c, cs, hcs⟩ : ∃ c cs, text ++ rest = c :: cs := by
       cases text with
       | nil => exact absurd rfl htext_ne
